@@ -248,6 +248,8 @@ impl NodeController {
                 cursor.delivered_in_segment += 1;
                 return Ok(Some(entry));
             }
+            #[cfg(feature = "verif")]
+            crate::verif_events::sched_point("ctl_read_found_nothing");
 
             // No entry available: if this segment is sealed and we've consumed it, advance;
             // otherwise return None to signal empty.
